@@ -1,17 +1,30 @@
 //! C08 — vehicle energy and battery state follow the powertrain model along a route.
-//! Correspondence: the real `EnergyTraversalModel` (built through `EnergyTraversalModel::new`, hence
+//! Correspondence, two constructions of the real code:
+//! (a) in-process: the real `EnergyTraversalModel` (built through `EnergyTraversalModel::new`, hence
 //! through the real `update_from_query`) over the real `SpeedTraversalModel` (speed table, real
 //! `get_max_speed`) and the real ICE / BEV / PHEV vehicle types with real `PredictionModelRecord`s
 //! (optionally with the real `FloatCachePolicy`) whose `PredictionModel` is a stub that is affine in
-//! speed and grade; the state model is built as `SearchApp::build_search_instance` builds it (real
-//! `collect_features` over the query's `state_features`, then `StateModel::extend`).  The state after
+//! speed and grade;
+//! (b) configured, the way the application builds it: `EnergyModelBuilder::build(config)` — the registered
+//! `SpeedLookupBuilder` over a speed-table file, the grade-table file, `VehicleBuilder::{ICE,BEV,PHEV}`
+//! over smartcore model files (`load_prediction_model`, `find_min_energy_rate`, cache from
+//! `float_cache_policy`), `EnergyModelService::new` — then `service.build(query)` selecting the vehicle by
+//! `model_name` (known, unknown, absent, not a string).  The builders cannot take a stub predictor, so
+//! the model files are small trained forests and the bundled vehicle models; the real model's answers
+//! (collected by an in-process twin of the case around the same files) reach the Lean model as data.
+//! In both, the state model is built as `SearchApp::build_search_instance` builds it (real
+//! `collect_features` over the query's `state_features`, then `StateModel::extend`); the state after
 //! every `traverse_edge`, `best_case_energy`, `best_case_energy_state` and the real
 //! `estimate_traversal` (its great-circle distance, computed by the real haversine code, is handed to
-//! the model as data) are compared bit for bit with the Lean model.
+//! the model as data; a rejected coordinate is an error outcome) are compared bit for bit with the Lean
+//! model.  `energy_model_ops::get_headings` has its own small family.
 //! Oracle (independent of the model): start charge = query value, rejection outside [0,100], charge
 //! within [0,100] after every edge, unclamped step = -100 E / capacity, clamp direction, per-edge energy =
 //! rate(edge speed, edge grade) x adjustment x length (hand-written SI factors), additivity, PHEV switch,
-//! best-case energy (direct and through estimate_traversal).
+//! best-case energy (direct and through estimate_traversal); for configured cases the same statements
+//! with the CONFIGURED values (keys builder/battery-capacity, builder/starting-soc, builder/ideal-rate,
+//! builder/real-world-adjustment, builder/prediction-record, service/vehicle-selection) and agreement with
+//! the in-process twin (builder/in-process-twin).
 use crate::ctx::{fbits, Ctx};
 use crate::rng::Rng;
 use routee_compass_core::model::network::{Edge, Vertex};
@@ -104,6 +117,54 @@ struct RecSpec {
     ideal: f64,
     adj: f64,
     cache: Option<(usize, Vec<i32>)>,
+    /// the predictor is a real smartcore model file (what the configuration builders can load); then
+    /// a0..a2 are unused and `ideal` / `adj` hold the values in force (configured or defaulted)
+    file: Option<FileRec>,
+}
+
+#[derive(Clone, Debug)]
+struct FileRec {
+    path: String,
+    ideal_cfg: Option<f64>,
+    adj_cfg: Option<f64>,
+    /// (speed, grade) in the model's own units -> rate, as evaluated by the real model on this case's route
+    table: Vec<(f64, f64, f64)>,
+    /// the real model's predictions on the ideal-rate sweep (20..79 mph, zero grade)
+    sweep: Vec<f64>,
+}
+
+#[derive(Clone, Debug)]
+struct VehSpec {
+    kind: Kind,
+    rec: RecSpec,
+    sustain: Option<RecSpec>,
+    cap: f64,
+    bunit: EnergyUnit,
+}
+
+#[derive(Clone, Debug)]
+enum NameQuery {
+    Absent,
+    NonString,
+    Name(usize),
+}
+
+/// the case is built the way the application builds it: `EnergyModelBuilder::build(config)` (speed
+/// table and grade table files, `VehicleBuilder`s over model files) and `service.build(query)`
+#[derive(Clone, Debug)]
+struct CfgSpec {
+    /// (name id, vehicle) in configuration order; the vehicle named by the query is also the Spec's own
+    library: Vec<(usize, VehSpec)>,
+    name: NameQuery,
+    /// leave `distance_unit` / `time_unit` of the time model and `distance_unit` of the energy model
+    /// out of the configuration (only when the unit in force is the default)
+    omit_edu: bool,
+    omit_etu: bool,
+    omit_sdu: bool,
+    /// a vertex coordinate outside the valid range: the haversine code fails
+    bad_coord: bool,
+    /// the configuration is made unreadable in one of several ways (see `break_config`)
+    malformed: Option<usize>,
 }
 
 #[derive(Clone, Debug)]
@@ -144,6 +205,7 @@ struct Spec {
     /// initial value of `battery_state`
     state_features: bool,
     soc_override: Option<f64>,
+    cfg: Option<CfgSpec>,
 }
 
 fn rec_line(r: &RecSpec) -> String {
@@ -157,18 +219,31 @@ fn rec_line(r: &RecSpec) -> String {
             s
         }
     };
-    format!(
-        "{} {} {} {} {} {} {} {} {}",
-        r.su,
-        r.gu,
-        r.ru,
-        fbits(r.a0),
-        fbits(r.a1),
-        fbits(r.a2),
-        fbits(r.ideal),
-        fbits(r.adj),
-        cache
-    )
+    match &r.file {
+        None => format!(
+            "{} {} {} aff {} {} {} {} {} {}",
+            r.su,
+            r.gu,
+            r.ru,
+            fbits(r.a0),
+            fbits(r.a1),
+            fbits(r.a2),
+            fbits(r.ideal),
+            fbits(r.adj),
+            cache
+        ),
+        Some(f) => {
+            let mut t = format!("{}", f.table.len());
+            for (sv, gv, rv) in &f.table {
+                t.push_str(&format!(" {} {} {}", fbits(*sv), fbits(*gv), fbits(*rv)));
+            }
+            let opt = |x: &Option<f64>| match x {
+                None => "n".to_string(),
+                Some(v) => format!("s {}", fbits(*v)),
+            };
+            format!("{} {} {} tbl {} {} {} {} {}", r.su, r.gu, r.ru, t, opt(&f.ideal_cfg), list_line(&f.sweep), opt(&f.adj_cfg), cache)
+        }
+    }
 }
 
 fn list_line(xs: &[f64]) -> String {
@@ -180,23 +255,42 @@ fn list_line(xs: &[f64]) -> String {
     s
 }
 
+fn veh_line(kind: Kind, rec: &RecSpec, sustain: &Option<RecSpec>, cap: f64, bunit: &EnergyUnit) -> String {
+    match kind {
+        Kind::Ice => format!("ice {}", rec_line(rec)),
+        Kind::Bev => format!("bev {} {} {}", rec_line(rec), fbits(cap), bunit),
+        Kind::Phev => format!("phev {} {} {} {}", rec_line(sustain.as_ref().unwrap()), rec_line(rec), fbits(cap), bunit),
+    }
+}
+
 fn case_line(sp: &Spec) -> String {
-    let veh = match sp.kind {
-        Kind::Ice => format!("ice {}", rec_line(&sp.rec)),
-        Kind::Bev => format!("bev {} {} {}", rec_line(&sp.rec), fbits(sp.cap), sp.bunit),
-        Kind::Phev => format!(
-            "phev {} {} {} {}",
-            rec_line(sp.sustain.as_ref().unwrap()),
-            rec_line(&sp.rec),
-            fbits(sp.cap),
-            sp.bunit
-        ),
-    };
     let q = match &sp.query {
         Query::Absent => "absent".to_string(),
         Query::NonNum => "nonnum".to_string(),
         Query::Num(x) => format!("num {}", fbits(*x)),
         Query::Int(i) => format!("num {}", fbits(*i as f64)),
+    };
+    let opt_unit = |omit: bool, name: String| if omit { "n".to_string() } else { format!("s {}", name) };
+    let head = match &sp.cfg {
+        None => format!("{} {}", veh_line(sp.kind, &sp.rec, &sp.sustain, sp.cap, &sp.bunit), q),
+        Some(c) => {
+            let mut h = format!("cfg {} {}", if c.malformed.is_some() { 1 } else { 0 }, c.library.len());
+            for (k, (id, v)) in c.library.iter().enumerate() {
+                // the vehicle the query names carries the rate tables collected on this case's route
+                let selected = matches!(&c.name, NameQuery::Name(n) if n == id) && !c.library[k + 1..].iter().any(|(j, _)| j == id);
+                if selected {
+                    h.push_str(&format!(" {} {}", id, veh_line(sp.kind, &sp.rec, &sp.sustain, sp.cap, &sp.bunit)));
+                } else {
+                    h.push_str(&format!(" {} {}", id, veh_line(v.kind, &v.rec, &v.sustain, v.cap, &v.bunit)));
+                }
+            }
+            let nm = match &c.name {
+                NameQuery::Absent => "absent".to_string(),
+                NameQuery::NonString => "nonstr".to_string(),
+                NameQuery::Name(k) => format!("name {}", k),
+            };
+            format!("{} {} {}", h, nm, q)
+        }
     };
     let gt = match &sp.grades {
         None => "n".to_string(),
@@ -206,26 +300,36 @@ fn case_line(sp: &Spec) -> String {
     for (id, d) in &sp.edges {
         edges.push_str(&format!(" {} {}", id, fbits(*d)));
     }
-    let hm = haversine_m(sp);
+    let (sdu, edu, etu, hm) = match &sp.cfg {
+        None => (format!("{}", sp.sdu), format!("{}", sp.edu), format!("{}", sp.etu), fbits(haversine_m(sp).unwrap())),
+        Some(c) => (
+            opt_unit(c.omit_sdu, format!("{}", sp.sdu)),
+            opt_unit(c.omit_edu, format!("{}", sp.edu)),
+            opt_unit(c.omit_etu, format!("{}", sp.etu)),
+            match haversine_m(sp) {
+                Some(x) => format!("s {}", fbits(x)),
+                None => "n".to_string(),
+            },
+        ),
+    };
     format!(
-        "{} {} {} {} {} {} {} {} {} {} {} {} {} {} {} {} {} {}",
-        veh,
-        q,
+        "{} {} {} {} {} {} {} {} {} {} {} {} {} {} {} {} {}",
+        head,
         sp.tmsu,
         gt,
         sp.ggu,
-        sp.sdu,
+        sdu,
         list_line(&sp.speeds),
         sp.esu,
-        sp.edu,
-        sp.etu,
+        edu,
+        etu,
         sp.ftu,
         sp.fdu,
         sp.flu,
         sp.feu,
         edges,
         fbits(sp.bcd),
-        fbits(hm),
+        hm,
         match sp.soc_override {
             None => "n".to_string(),
             Some(y) => format!("s {}", fbits(y)),
@@ -235,12 +339,47 @@ fn case_line(sp: &Spec) -> String {
 
 /// the great-circle distance of the case's vertex pair in metres, from the real haversine code (the
 /// model takes it as data)
-fn haversine_m(sp: &Spec) -> f64 {
-    let src = Vertex::new(0, sp.od.0 .0, sp.od.0 .1);
-    let dst = Vertex::new(1, sp.od.1 .0, sp.od.1 .1);
+fn haversine_m(sp: &Spec) -> Option<f64> {
+    let (src, dst) = od_vertices(sp);
     routee_compass_core::util::geo::haversine::coord_distance_meters(&src.coordinate, &dst.coordinate)
-        .expect("haversine")
-        .as_f64()
+        .ok()
+        .map(|d| d.as_f64())
+}
+
+fn od_vertices(sp: &Spec) -> (Vertex, Vertex) {
+    let bad = sp.cfg.as_ref().map(|c| c.bad_coord).unwrap_or(false);
+    let src = Vertex::new(0, sp.od.0 .0, sp.od.0 .1);
+    let dst = if bad { Vertex::new(1, sp.od.1 .0, 91.5) } else { Vertex::new(1, sp.od.1 .0, sp.od.1 .1) };
+    (src, dst)
+}
+
+type Seen = Arc<std::sync::Mutex<Option<(f64, String, f64, String)>>>;
+
+/// what the harness observes of the predictor calls
+#[derive(Clone)]
+struct Probes {
+    calls_main: Arc<AtomicUsize>,
+    calls_sus: Arc<AtomicUsize>,
+    /// what the real code handed to the predictor last: raw speed and grade with their units
+    seen: Seen,
+    /// the rate the predictor returned last
+    last_rate: Arc<std::sync::Mutex<Option<f64>>>,
+    /// every evaluation of a file-based predictor: (speed, grade) in the model's own units -> rate
+    log_main: Arc<std::sync::Mutex<Vec<(f64, f64, f64)>>>,
+    log_sus: Arc<std::sync::Mutex<Vec<(f64, f64, f64)>>>,
+}
+
+impl Probes {
+    fn new() -> Probes {
+        Probes {
+            calls_main: Arc::new(AtomicUsize::new(0)),
+            calls_sus: Arc::new(AtomicUsize::new(0)),
+            seen: Arc::new(std::sync::Mutex::new(None)),
+            last_rate: Arc::new(std::sync::Mutex::new(None)),
+            log_main: Arc::new(std::sync::Mutex::new(vec![])),
+            log_sus: Arc::new(std::sync::Mutex::new(vec![])),
+        }
+    }
 }
 
 /// the stub prediction model: converts its arguments to its own units exactly as the bundled
@@ -253,8 +392,8 @@ struct Stub {
     a1: f64,
     a2: f64,
     calls: Arc<AtomicUsize>,
-    /// what the real code handed to the predictor last: raw speed and grade with their units
-    seen: Arc<std::sync::Mutex<Option<(f64, String, f64, String)>>>,
+    seen: Seen,
+    last_rate: Arc<std::sync::Mutex<Option<f64>>>,
 }
 
 impl PredictionModel for Stub {
@@ -270,25 +409,78 @@ impl PredictionModel for Stub {
         self.calls.fetch_add(1, Ordering::SeqCst);
         *self.seen.lock().unwrap() = Some((speed.as_f64(), format!("{}", speed_unit), grade.as_f64(), format!("{}", grade_unit)));
         let rate = self.a0 + self.a1 * s + self.a2 * g;
+        *self.last_rate.lock().unwrap() = Some(rate);
         Ok((EnergyRate::new(rate), self.ru))
     }
 }
 
-fn build_record(name: &str, r: &RecSpec, calls: Arc<AtomicUsize>, seen: Arc<std::sync::Mutex<Option<(f64, String, f64, String)>>>) -> PredictionModelRecord {
-    let cache = r.cache.as_ref().map(|(size, precs)| {
+/// a real prediction model (loaded from a model file by `load_prediction_model`) that records what it is
+/// asked and what it answers
+struct Recording {
+    inner: Arc<dyn PredictionModel>,
+    su: SpeedUnit,
+    gu: GradeUnit,
+    calls: Arc<AtomicUsize>,
+    seen: Seen,
+    last_rate: Arc<std::sync::Mutex<Option<f64>>>,
+    log: Arc<std::sync::Mutex<Vec<(f64, f64, f64)>>>,
+}
+
+impl PredictionModel for Recording {
+    fn predict(
+        &self,
+        speed: (Speed, SpeedUnit),
+        grade: (Grade, GradeUnit),
+    ) -> Result<(EnergyRate, EnergyRateUnit), TraversalModelError> {
+        let r = self.inner.predict(speed, grade)?;
+        let s = speed.1.convert(&speed.0, &self.su).as_f64();
+        let g = grade.1.convert(&grade.0, &self.gu).as_f64();
+        self.calls.fetch_add(1, Ordering::SeqCst);
+        *self.seen.lock().unwrap() = Some((speed.0.as_f64(), format!("{}", speed.1), grade.0.as_f64(), format!("{}", grade.1)));
+        *self.last_rate.lock().unwrap() = Some(r.0.as_f64());
+        self.log.lock().unwrap().push((s, g, r.0.as_f64()));
+        Ok(r)
+    }
+}
+
+fn make_cache(r: &RecSpec) -> Option<FloatCachePolicy> {
+    r.cache.as_ref().map(|(size, precs)| {
         FloatCachePolicy::from_config(FloatCachePolicyConfig { cache_size: *size, key_precisions: precs.clone() })
             .expect("cache config")
-    });
-    PredictionModelRecord {
-        name: name.to_string(),
-        prediction_model: Arc::new(Stub { su: r.su, gu: r.gu, ru: r.ru, a0: r.a0, a1: r.a1, a2: r.a2, calls, seen }),
-        model_type: ModelType::Smartcore,
-        speed_unit: r.su,
-        grade_unit: r.gu,
-        energy_rate_unit: r.ru,
-        ideal_energy_rate: EnergyRate::new(r.ideal),
-        real_world_energy_adjustment: r.adj,
-        cache,
+    })
+}
+
+fn build_record(name: &str, r: &RecSpec, calls: Arc<AtomicUsize>, log: Arc<std::sync::Mutex<Vec<(f64, f64, f64)>>>, pr: &Probes) -> PredictionModelRecord {
+    match &r.file {
+        None => PredictionModelRecord {
+            name: name.to_string(),
+            prediction_model: Arc::new(Stub { su: r.su, gu: r.gu, ru: r.ru, a0: r.a0, a1: r.a1, a2: r.a2, calls, seen: pr.seen.clone(), last_rate: pr.last_rate.clone() }),
+            model_type: ModelType::Smartcore,
+            speed_unit: r.su,
+            grade_unit: r.gu,
+            energy_rate_unit: r.ru,
+            ideal_energy_rate: EnergyRate::new(r.ideal),
+            real_world_energy_adjustment: r.adj,
+            cache: make_cache(r),
+        },
+        Some(f) => {
+            // the in-process twin of a configured record: the same model file, wrapped so that its
+            // evaluations can be handed to the Lean model as data
+            let mut rec = routee_compass_powertrain::routee::prediction::load_prediction_model(
+                name.to_string(),
+                &f.path,
+                ModelType::Smartcore,
+                r.su,
+                r.gu,
+                r.ru,
+                Some(EnergyRate::new(r.ideal)),
+                Some(r.adj),
+                make_cache(r),
+            )
+            .expect("model file loads");
+            rec.prediction_model = Arc::new(Recording { inner: rec.prediction_model.clone(), su: r.su, gu: r.gu, calls, seen: pr.seen.clone(), last_rate: pr.last_rate.clone(), log });
+            rec
+        }
     }
 }
 
@@ -333,8 +525,9 @@ fn show(sp: &Spec, o: &Obs) -> String {
 
 enum Step {
     /// state after the edge; whether the main / sustain stub was called during the edge; the raw
-    /// (speed, grade) the predictor was handed (only recorded when no cache is configured)
-    Ok(Obs, bool, bool, Option<(f64, f64)>),
+    /// (speed, grade) the predictor was handed (only recorded when no cache is configured); the rate the
+    /// predictor returned on this edge (None: it was not called)
+    Ok(Obs, bool, bool, Option<(f64, f64)>, Option<f64>),
     Err(&'static str),
 }
 
@@ -348,19 +541,55 @@ struct Outcome {
     /// state after `estimate_traversal` from `last` (None: error)
     est: Option<Obs>,
     engine_rejected: bool,
+    /// configured battery vehicle: the initial charge its builder gives it before any query
+    built_soc: Option<f64>,
 }
 
-fn execute(sp: &Spec) -> (String, Outcome) {
-    let calls_main = Arc::new(AtomicUsize::new(0));
-    let calls_sus = Arc::new(AtomicUsize::new(0));
-    let seen = Arc::new(std::sync::Mutex::new(None));
-    let no_cache = sp.rec.cache.is_none() && sp.sustain.as_ref().map(|r| r.cache.is_none()).unwrap_or(true);
+fn empty_outcome() -> Outcome {
+    Outcome { rejected: false, init: Obs::default(), steps: vec![], last: Obs::default(), bc: None, bcs: Obs::default(), est: None, engine_rejected: false, built_soc: None }
+}
+
+/// the query: `model_name`, `starting_soc_percent`, `state_features`
+fn query_json(sp: &Spec, model_name: Option<serde_json::Value>) -> serde_json::Value {
+    let mut conf = serde_json::json!({});
+    if let Some(n) = model_name {
+        conf["model_name"] = n;
+    }
+    match &sp.query {
+        Query::Absent => {}
+        Query::NonNum => conf["starting_soc_percent"] = serde_json::json!("fifty"),
+        Query::Num(x) => conf["starting_soc_percent"] = serde_json::json!(*x),
+        Query::Int(i) => conf["starting_soc_percent"] = serde_json::json!(*i),
+    }
+    if sp.state_features {
+        let mut sf = serde_json::Map::new();
+        sf.insert("time".to_string(), serde_json::json!({ "time_unit": sp.ftu, "initial": 0.0 }));
+        sf.insert("distance".to_string(), serde_json::json!({ "distance_unit": sp.fdu, "initial": 0.0 }));
+        if sp.kind != Kind::Bev {
+            sf.insert("energy_liquid".to_string(), serde_json::json!({ "energy_unit": sp.flu, "initial": 0.0 }));
+        }
+        if sp.kind != Kind::Ice {
+            sf.insert("energy_electric".to_string(), serde_json::json!({ "energy_unit": sp.feu, "initial": 0.0 }));
+            if let Some(y) = sp.soc_override {
+                sf.insert(
+                    "battery_state".to_string(),
+                    serde_json::json!({ "type": "soc", "unit": "percent", "format": { "floating_point": { "initial": y } } }),
+                );
+            }
+        }
+        conf["state_features"] = serde_json::Value::Object(sf);
+    }
+    conf
+}
+
+/// in-process construction from the crates' public structs (predictor: stub or recording model file)
+fn execute(sp: &Spec, pr: &Probes) -> (String, Outcome) {
     let name = "veh".to_string();
     let vehicle: Arc<dyn VehicleType> = match sp.kind {
-        Kind::Ice => Arc::new(ICE::new(name.clone(), build_record("rec", &sp.rec, calls_main.clone(), seen.clone())).unwrap()),
+        Kind::Ice => Arc::new(ICE::new(name.clone(), build_record("rec", &sp.rec, pr.calls_main.clone(), pr.log_main.clone(), pr)).unwrap()),
         Kind::Bev => Arc::new(BEV::new(
             name.clone(),
-            build_record("rec", &sp.rec, calls_main.clone(), seen.clone()),
+            build_record("rec", &sp.rec, pr.calls_main.clone(), pr.log_main.clone(), pr),
             Energy::new(sp.cap),
             Energy::new(sp.cap),
             sp.bunit,
@@ -368,8 +597,8 @@ fn execute(sp: &Spec) -> (String, Outcome) {
         Kind::Phev => Arc::new(
             PHEV::new(
                 name.clone(),
-                build_record("sustain", sp.sustain.as_ref().unwrap(), calls_sus.clone(), seen.clone()),
-                build_record("deplete", &sp.rec, calls_main.clone(), seen.clone()),
+                build_record("sustain", sp.sustain.as_ref().unwrap(), pr.calls_sus.clone(), pr.log_sus.clone(), pr),
+                build_record("deplete", &sp.rec, pr.calls_main.clone(), pr.log_main.clone(), pr),
                 Energy::new(sp.cap),
                 Energy::new(sp.cap),
                 sp.bunit,
@@ -381,7 +610,7 @@ fn execute(sp: &Spec) -> (String, Outcome) {
     let mut library: HashMap<String, Arc<dyn VehicleType>> = HashMap::new();
     library.insert(name.clone(), vehicle);
     let speed_table: Box<[Speed]> = sp.speeds.iter().map(|s| Speed::new(*s)).collect();
-    let mut out = Outcome { rejected: false, init: Obs::default(), steps: vec![], last: Obs::default(), bc: None, bcs: Obs::default(), est: None, engine_rejected: false };
+    let mut out = empty_outcome();
     let max_speed = match routee_compass_core::model::traversal::default::speed_traversal_engine::get_max_speed(&speed_table) {
         Ok(m) => m,
         Err(_) => {
@@ -407,31 +636,7 @@ fn execute(sp: &Spec) -> (String, Outcome) {
         distance_unit: sp.sdu,
         vehicle_library: library,
     };
-    let mut conf = serde_json::json!({ "model_name": name });
-    match &sp.query {
-        Query::Absent => {}
-        Query::NonNum => conf["starting_soc_percent"] = serde_json::json!("fifty"),
-        Query::Num(x) => conf["starting_soc_percent"] = serde_json::json!(*x),
-        Query::Int(i) => conf["starting_soc_percent"] = serde_json::json!(*i),
-    }
-    if sp.state_features {
-        let mut sf = serde_json::Map::new();
-        sf.insert("time".to_string(), serde_json::json!({ "time_unit": sp.ftu, "initial": 0.0 }));
-        sf.insert("distance".to_string(), serde_json::json!({ "distance_unit": sp.fdu, "initial": 0.0 }));
-        if sp.kind != Kind::Bev {
-            sf.insert("energy_liquid".to_string(), serde_json::json!({ "energy_unit": sp.flu, "initial": 0.0 }));
-        }
-        if sp.kind != Kind::Ice {
-            sf.insert("energy_electric".to_string(), serde_json::json!({ "energy_unit": sp.feu, "initial": 0.0 }));
-            if let Some(y) = sp.soc_override {
-                sf.insert(
-                    "battery_state".to_string(),
-                    serde_json::json!({ "type": "soc", "unit": "percent", "format": { "floating_point": { "initial": y } } }),
-                );
-            }
-        }
-        conf["state_features"] = serde_json::Value::Object(sf);
-    }
+    let conf = query_json(sp, Some(serde_json::json!(name)));
     let model = match EnergyTraversalModel::new(Arc::new(service), &conf) {
         Ok(m) => m,
         Err(_) => {
@@ -439,13 +644,215 @@ fn execute(sp: &Spec) -> (String, Outcome) {
             return ("rejected".to_string(), out);
         }
     };
+    let vehicle = model.vehicle.clone();
+    drive(sp, Arc::new(model), Some(vehicle), &conf, pr)
+}
+
+fn cfg_record_json(name: &str, r: &RecSpec) -> serde_json::Value {
+    let f = r.file.as_ref().expect("configured records are model files");
+    let mut j = serde_json::json!({
+        "name": name,
+        "model_input_file": f.path,
+        "model_type": "smartcore",
+        "speed_unit": r.su,
+        "grade_unit": r.gu,
+        "energy_rate_unit": r.ru,
+    });
+    if let Some(x) = f.ideal_cfg {
+        j["ideal_energy_rate"] = serde_json::json!(x);
+    }
+    if let Some(x) = f.adj_cfg {
+        j["real_world_energy_adjustment"] = serde_json::json!(x);
+    }
+    if let Some((size, precs)) = &r.cache {
+        j["float_cache_policy"] = serde_json::json!({ "cache_size": size, "key_precisions": precs });
+    }
+    j
+}
+
+fn cfg_vehicle_json(id: usize, v: &VehSpec) -> serde_json::Value {
+    let name = format!("v{}", id);
+    match v.kind {
+        Kind::Ice => {
+            let mut j = cfg_record_json(&name, &v.rec);
+            j["type"] = serde_json::json!("ice");
+            j
+        }
+        Kind::Bev => {
+            let mut j = cfg_record_json(&name, &v.rec);
+            j["type"] = serde_json::json!("bev");
+            j["battery_capacity"] = serde_json::json!(v.cap);
+            j["battery_capacity_unit"] = serde_json::json!(v.bunit);
+            j
+        }
+        Kind::Phev => serde_json::json!({
+            "type": "phev",
+            "name": name,
+            "battery_capacity": v.cap,
+            "battery_capacity_unit": v.bunit,
+            "charge_depleting": cfg_record_json(&format!("{}_cd", name), &v.rec),
+            "charge_sustaining": cfg_record_json(&format!("{}_cs", name), v.sustain.as_ref().unwrap()),
+        }),
+    }
+}
+
+fn write_table(path: &str, xs: &[f64]) {
+    let mut t = String::new();
+    for x in xs {
+        t.push_str(&format!("{}\n", x));
+    }
+    std::fs::write(path, t).expect("table file written");
+}
+
+/// make the configuration unreadable: every variant must end in a build error
+fn break_config(params: &mut serde_json::Value, k: usize, grade_file: &str) {
+    let n = params["vehicles"].as_array().map(|a| a.len()).unwrap_or(0);
+    let battery = (0..n).find(|i| params["vehicles"][*i]["type"] != "ice");
+    let phev = (0..n).find(|i| params["vehicles"][*i]["type"] == "phev");
+    // the first record section of the first vehicle
+    let first_is_phev = params["vehicles"][0]["type"] == "phev";
+    match k {
+        1 if battery.is_some() => {
+            params["vehicles"][battery.unwrap()].as_object_mut().unwrap().remove("battery_capacity");
+        }
+        2 if phev.is_some() => {
+            params["vehicles"][phev.unwrap()].as_object_mut().unwrap().remove("charge_depleting");
+        }
+        3 => params["time_model"]["type"] = serde_json::json!("warp"),
+        4 => {
+            params.as_object_mut().unwrap().remove("time_model");
+        }
+        5 => {
+            params.as_object_mut().unwrap().remove("grade_table_grade_unit");
+        }
+        6 => {
+            if first_is_phev {
+                params["vehicles"][0]["charge_sustaining"]["model_input_file"] = serde_json::json!("work/C08_cfg/no_such_model.bin");
+            } else {
+                params["vehicles"][0]["model_input_file"] = serde_json::json!("work/C08_cfg/no_such_model.bin");
+            }
+        }
+        7 | 8 => {
+            let policy = if k == 7 { serde_json::json!({ "cache_size": 0, "key_precisions": [2, 2] }) } else { serde_json::json!({ "cache_size": 10, "key_precisions": [11, 2] }) };
+            if first_is_phev {
+                params["vehicles"][0]["charge_depleting"]["float_cache_policy"] = policy;
+            } else {
+                params["vehicles"][0]["float_cache_policy"] = policy;
+            }
+        }
+        9 => {
+            std::fs::write(grade_file, "0.01\nabc\n0.02\n").expect("grade file");
+            params["grade_table_input_file"] = serde_json::json!(grade_file);
+        }
+        10 => {
+            params.as_object_mut().unwrap().remove("vehicles");
+        }
+        11 if battery.is_some() => params["vehicles"][battery.unwrap()]["battery_capacity_unit"] = serde_json::json!("joules"),
+        12 => params["time_model"]["speed_table_input_file"] = serde_json::json!("work/C08_cfg/no_such_speeds.txt"),
+        13 => {
+            params["vehicles"][0].as_object_mut().unwrap().remove("type");
+        }
+        _ => params["vehicles"][0]["type"] = serde_json::json!("hovercraft"),
+    }
+}
+
+/// construction the way the application does it: `EnergyModelBuilder::build(config)` — the registered
+/// speed-table builder over a speed file, the grade file, `VehicleBuilder::from_string(type).build(..)` per
+/// vehicle over its model file(s), `EnergyModelService::new` — then `service.build(query)`
+fn execute_cfg(sp: &Spec, c: &CfgSpec, idx: usize) -> (String, Outcome) {
+    use routee_compass::app::compass::config::traversal_model::{energy_model_builder::EnergyModelBuilder, speed_lookup_builder::SpeedLookupBuilder};
+    use routee_compass_core::model::traversal::traversal_model_builder::TraversalModelBuilder;
+    let dir = "work/C08_cfg";
+    std::fs::create_dir_all(dir).expect("work dir");
+    let speed_file = format!("{}/speeds_{}_{}.txt", dir, std::process::id(), idx);
+    let grade_file = format!("{}/grades_{}_{}.txt", dir, std::process::id(), idx);
+    write_table(&speed_file, &sp.speeds);
+    let mut time_model = serde_json::json!({ "type": "speed_table", "speed_table_input_file": speed_file, "speed_unit": sp.tmsu });
+    if !c.omit_edu {
+        time_model["distance_unit"] = serde_json::json!(sp.edu);
+    }
+    if !c.omit_etu {
+        time_model["time_unit"] = serde_json::json!(sp.etu);
+    }
+    let mut params = serde_json::json!({
+        "type": "energy_model",
+        "time_model": time_model,
+        "grade_table_grade_unit": sp.ggu,
+        "vehicles": c.library.iter().map(|(id, v)| cfg_vehicle_json(*id, v)).collect::<Vec<_>>(),
+    });
+    if let Some(g) = &sp.grades {
+        write_table(&grade_file, g);
+        params["grade_table_input_file"] = serde_json::json!(grade_file);
+    }
+    if !c.omit_sdu {
+        params["distance_unit"] = serde_json::json!(sp.sdu);
+    }
+    if let Some(k) = c.malformed {
+        break_config(&mut params, k, &grade_file);
+    }
+    let mut time_models: HashMap<String, std::rc::Rc<dyn TraversalModelBuilder>> = HashMap::new();
+    time_models.insert("speed_table".to_string(), std::rc::Rc::new(SpeedLookupBuilder {}));
+    let built = EnergyModelBuilder::new(time_models).build(&params);
+    let _ = std::fs::remove_file(&speed_file);
+    let _ = std::fs::remove_file(&grade_file);
+    let mut out = empty_outcome();
+    let service = match built {
+        Ok(s) => s,
+        Err(_) => {
+            out.rejected = true;
+            out.engine_rejected = true;
+            return ("engine_rejected".to_string(), out);
+        }
+    };
+    // the vehicle the query names, as its builder leaves it (before any query): a battery vehicle starts full
+    let named = match &c.name {
+        NameQuery::Name(k) => c.library.iter().rev().find(|(id, _)| id == k),
+        _ => None,
+    };
+    let built = match named {
+        Some((id, v)) if v.kind != Kind::Ice => {
+            use routee_compass::app::compass::config::traversal_model::energy_model_vehicle_builders::VehicleBuilder;
+            let ty = match v.kind { Kind::Ice => "ice", Kind::Bev => "bev", Kind::Phev => "phev" };
+            let vehicle = VehicleBuilder::from_string(ty.to_string()).expect("vehicle type").build(&cfg_vehicle_json(*id, v)).expect("vehicle builds");
+            let soc = vehicle
+                .state_features()
+                .into_iter()
+                .find(|(n, _)| n == "battery_state")
+                .map(|(_, f)| f.get_initial().expect("initial").0)
+                .expect("battery_state feature");
+            out.built_soc = Some(soc);
+            format!("built {} | ", fbits(soc))
+        }
+        _ => "built - | ".to_string(),
+    };
+    let name = match &c.name {
+        NameQuery::Absent => None,
+        NameQuery::NonString => Some(serde_json::json!(17)),
+        NameQuery::Name(k) => Some(serde_json::json!(format!("v{}", k))),
+    };
+    let conf = query_json(sp, name);
+    let model = match service.build(&conf) {
+        Ok(m) => m,
+        Err(_) => {
+            out.rejected = true;
+            return (format!("{}rejected", built), out);
+        }
+    };
+    let (line, mut oc) = drive(sp, model, None, &conf, &Probes::new());
+    oc.built_soc = out.built_soc;
+    (format!("{}{}", built, line), oc)
+}
+
+/// the route, the best case and the estimate on a built model
+fn drive(sp: &Spec, model: Arc<dyn TraversalModel>, vehicle: Option<Arc<dyn VehicleType>>, conf: &serde_json::Value, pr: &Probes) -> (String, Outcome) {
+    let mut out = empty_outcome();
+    let no_cache = sp.rec.cache.is_none() && sp.sustain.as_ref().map(|r| r.cache.is_none()).unwrap_or(true);
+    let report_probe = no_cache && sp.cfg.is_none();
     // the state model, built the way `SearchApp::build_search_instance` builds it: the model's features,
     // overridden by the query's `state_features`, extend the (empty) base state model
-    let model = Arc::new(model);
-    let tm: Arc<dyn TraversalModel> = model.clone();
     let features: Vec<(String, StateFeature)> = routee_compass::app::search::search_app_ops::collect_features(
-        &conf,
-        tm,
+        conf,
+        model.clone(),
         Arc::new(routee_compass_core::model::access::default::no_access_model::NoAccessModel {}),
     )
     .expect("collect_features");
@@ -458,15 +865,16 @@ fn execute(sp: &Spec) -> (String, Outcome) {
     for (id, d) in &sp.edges {
         let edge = Edge::new(*id, 0, 1, *d);
         let before = state.clone();
-        let cm = calls_main.load(Ordering::SeqCst);
-        let cs = calls_sus.load(Ordering::SeqCst);
+        let cm = pr.calls_main.load(Ordering::SeqCst);
+        let cs = pr.calls_sus.load(Ordering::SeqCst);
+        *pr.last_rate.lock().unwrap() = None;
         match model.traverse_edge((&v, &edge, &v), &mut state, &sm) {
             Ok(()) => {
                 let o = read_state(sp, &sm, &state);
                 // without a cache the predictor is called on every edge: report what it was handed
                 let mut handed = None;
-                let probe = if no_cache {
-                    match seen.lock().unwrap().take() {
+                let probe = if report_probe {
+                    match pr.seen.lock().unwrap().take() {
                         Some((s, su, g, gu)) => {
                             handed = Some((s, g));
                             format!(" p {} {} {} {}", fbits(s), fbits(g), su, gu)
@@ -480,9 +888,10 @@ fn execute(sp: &Spec) -> (String, Outcome) {
                 out.last = o.clone();
                 out.steps.push(Step::Ok(
                     o,
-                    calls_main.load(Ordering::SeqCst) > cm,
-                    calls_sus.load(Ordering::SeqCst) > cs,
+                    pr.calls_main.load(Ordering::SeqCst) > cm,
+                    pr.calls_sus.load(Ordering::SeqCst) > cs,
                     handed,
+                    pr.last_rate.lock().unwrap().take(),
                 ));
             }
             Err(e) => {
@@ -499,24 +908,25 @@ fn execute(sp: &Spec) -> (String, Outcome) {
             }
         }
     }
-    let dist = (Distance::new(sp.bcd), sp.sdu);
-    match model.vehicle.best_case_energy(dist) {
-        Ok((e, u)) => {
-            parts.push(format!("bc {} {}", fbits(e.as_f64()), u));
-            out.bc = Some((e.as_f64(), u));
+    if let Some(vehicle) = &vehicle {
+        let dist = (Distance::new(sp.bcd), sp.sdu);
+        match vehicle.best_case_energy(dist) {
+            Ok((e, u)) => {
+                parts.push(format!("bc {} {}", fbits(e.as_f64()), u));
+                out.bc = Some((e.as_f64(), u));
+            }
+            Err(_) => parts.push("bc err".to_string()),
         }
-        Err(_) => parts.push("bc err".to_string()),
-    }
-    let mut st2 = state.clone();
-    match model.vehicle.best_case_energy_state(dist, &mut st2, &sm) {
-        Ok(()) => {
-            out.bcs = read_state(sp, &sm, &st2);
-            parts.push(format!("bcs {}", show(sp, &out.bcs)));
+        let mut st2 = state.clone();
+        match vehicle.best_case_energy_state(dist, &mut st2, &sm) {
+            Ok(()) => {
+                out.bcs = read_state(sp, &sm, &st2);
+                parts.push(format!("bcs {}", show(sp, &out.bcs)));
+            }
+            Err(_) => parts.push("bcs err".to_string()),
         }
-        Err(_) => parts.push("bcs err".to_string()),
     }
-    let src = Vertex::new(0, sp.od.0 .0, sp.od.0 .1);
-    let dst = Vertex::new(1, sp.od.1 .0, sp.od.1 .1);
+    let (src, dst) = od_vertices(sp);
     let mut st3 = state.clone();
     match model.estimate_traversal((&src, &dst), &mut st3, &sm) {
         Ok(()) => {
@@ -559,10 +969,64 @@ fn expected_energy(sp: &Spec, r: &RecSpec, id: usize, d_m: f64) -> (f64, f64) {
     (rate * r.adj * dist, abs * r.adj.abs() * dist)
 }
 
-fn oracle(ctx: &mut Ctx, idx: usize, sp: &Spec, oc: &Outcome) {
+/// collected oracle failures (key, message)
+struct Fails(Vec<(String, String)>);
+
+impl Fails {
+    fn fail(&mut self, _idx: usize, key: &str, msg: String) {
+        self.0.push((key.to_string(), msg));
+    }
+}
+
+/// `twin`: for a configured case, the outcome of the same case constructed in-process around the same
+/// model files with recording predictors (which edges called the predictor, and the rate it returned)
+fn oracle(ctx: &mut Ctx, idx: usize, sp: &Spec, oc: &Outcome, twin: Option<&Outcome>) {
+    let mut fails = Fails(vec![]);
+    oracle_inner(&mut fails, idx, sp, oc, twin);
+    for (key, msg) in fails.0 {
+        // a configured case reports a deviation under the configured value that is not in force
+        let key = if sp.cfg.is_some() {
+            match key.as_str() {
+                "soc/step" | "soc/clamp" => "builder/battery-capacity",
+                "soc/start" => "builder/starting-soc",
+                "estimate/best-case" => "builder/ideal-rate",
+                "edge_energy/definition" | "energy/additivity" => "builder/prediction-record",
+                k => k,
+            }
+            .to_string()
+        } else {
+            key
+        };
+        ctx.fail(idx, &key, msg);
+    }
+}
+
+fn oracle_inner(ctx: &mut Fails, idx: usize, sp: &Spec, oc: &Outcome, twin: Option<&Outcome>) {
     let battery = sp.kind != Kind::Ice;
     if oc.engine_rejected {
         return;
+    }
+    if let Some(c) = &sp.cfg {
+        if let Some(k) = c.malformed {
+            ctx.fail(idx, "builder/accepts-malformed", format!("the unreadable configuration (variant {}) was built", k));
+            return;
+        }
+    }
+    // --- the query's model_name selects the vehicle; anything that names no configured vehicle is an error
+    if let Some(c) = &sp.cfg {
+        let valid = matches!(&c.name, NameQuery::Name(k) if c.library.iter().any(|(id, _)| id == k));
+        if !valid {
+            if !oc.rejected {
+                ctx.fail(idx, "service/vehicle-selection", format!("model_name {:?} names no vehicle of the library {:?} but a model was built", c.name, c.library.iter().map(|(id, _)| *id).collect::<Vec<_>>()));
+            }
+            return;
+        }
+    }
+    // --- a configured battery vehicle starts full
+    if let Some(b) = oc.built_soc {
+        if b != 100.0 {
+            ctx.fail(idx, "builder/starting-soc", format!("the vehicle builder gives the vehicle an initial charge of {} percent (capacity {} {})", b, sp.cap, sp.bunit));
+        }
     }
     // --- rejection of the starting charge
     let q: Option<f64> = match &sp.query {
@@ -622,13 +1086,27 @@ fn oracle(ctx: &mut Ctx, idx: usize, sp: &Spec, oc: &Outcome) {
     let mut all_ok = true;
     for (i, step) in oc.steps.iter().enumerate() {
         let (id, d_m) = sp.edges[i];
-        let (cur, called_main, called_sus, handed) = match step {
-            Step::Ok(o, a, b, h) => (o, *a, *b, *h),
+        let (cur, mut called_main, mut called_sus, handed, mut rate) = match step {
+            Step::Ok(o, a, b, h, r) => (o, *a, *b, *h, *r),
             Step::Err(_) => {
                 all_ok = false;
                 break;
             }
         };
+        if sp.cfg.is_some() {
+            // the configured model's predictor cannot be observed: take the calls and rates of the twin
+            match twin.and_then(|t| t.steps.get(i)) {
+                Some(Step::Ok(_, a, b, _, r)) => {
+                    called_main = *a;
+                    called_sus = *b;
+                    rate = *r;
+                }
+                _ => {
+                    ctx.fail(idx, "builder/in-process-twin", format!("edge #{} was traversed by the configured model but not by the model constructed in-process", i));
+                    return;
+                }
+            }
+        }
         // the speed and grade handed to the predictor are the edge's own (speed table / grade table entries)
         if let Some((hs, hg)) = handed {
             let want_s = sp.speeds[id] * si_s(&sp.esu) / si_s(&sp.tmsu);
@@ -651,20 +1129,38 @@ fn oracle(ctx: &mut Ctx, idx: usize, sp: &Spec, oc: &Outcome) {
         };
         let rec_eu = rec.ru.associated_energy_unit();
         let (fu, p_acc, c_acc) = if electric { (sp.feu, prev.electric, cur.electric) } else { (sp.flu, prev.liquid, cur.liquid) };
-        let (e, eabs) = expected_energy(sp, rec, id, d_m);
+        let (e, eabs) = if rec.file.is_some() {
+            // a model file: the rate is what the real model answered on this edge (unknown on a cache hit)
+            match rate {
+                Some(r) => {
+                    let dist = d_m / si_d(&rec.ru.associated_distance_unit());
+                    (r * rec.adj * dist, r.abs() * rec.adj.abs() * dist)
+                }
+                None => {
+                    all_ok = false;
+                    (f64::NAN, f64::NAN)
+                }
+            }
+        } else {
+            expected_energy(sp, rec, id, d_m)
+        };
         let k = conv_e(&rec_eu, &fu, 1.0).abs();
         let e_f = conv_e(&rec_eu, &fu, e);
         let delta = c_acc - p_acc;
         let cancel = 16.0 * EPS * (p_acc.abs() + c_acc.abs());
         let tol = CHAIN_TOL * eabs * k + cancel + 1e-300;
-        if electric {
+        if e.is_nan() {
+            // (a model file on a cache hit: the rate in force is not observable)
+        } else if electric {
             sum_el = (sum_el.0 + e_f, sum_el.1 + eabs * k);
         } else {
             sum_liq = (sum_liq.0 + e_f, sum_liq.1 + eabs * k);
         }
-        if !((delta - e_f).abs() <= tol) {
+        if !e.is_nan() && !((delta - e_f).abs() <= tol) {
             let key = if rec.cache.is_some() && !called {
                 "predict/cache-key-collision"
+            } else if sp.cfg.is_some() && (delta - e_f / rec.adj).abs() <= tol {
+                "builder/real-world-adjustment"
             } else {
                 "edge_energy/definition"
             };
@@ -781,7 +1277,7 @@ fn oracle(ctx: &mut Ctx, idx: usize, sp: &Spec, oc: &Outcome) {
     // --- estimate_traversal: the energy that orders the search is the ideal rate x the great-circle distance
     if let Some(o) = &oc.est {
         let r = &sp.rec;
-        let hm = haversine_m(sp);
+        let hm = haversine_m(sp).unwrap_or(0.0);
         let bu = r.ru.associated_energy_unit();
         let want = r.ideal * (hm / si_d(&r.ru.associated_distance_unit()));
         let (fu, p_acc, c_acc) = if sp.kind == Kind::Ice { (sp.flu, oc.last.liquid, o.liquid) } else { (sp.feu, oc.last.electric, o.electric) };
@@ -848,7 +1344,7 @@ fn gen_rec(rng: &mut Rng, electric: bool, any_unit: bool) -> RecSpec {
     let a2 = nominal * rng.uniform(8.0, 30.0) * si_g(&gu);
     let ideal = nominal * rng.uniform(0.3, 1.0);
     let adj = if rng.chance(1, 4) { 1.0 } else { rng.uniform(1.0, 1.5) };
-    RecSpec { su, gu, ru, a0, a1, a2, ideal, adj, cache: gen_cache(rng) }
+    RecSpec { su, gu, ru, a0, a1, a2, ideal, adj, cache: gen_cache(rng), file: None }
 }
 
 fn gen_query(rng: &mut Rng) -> Query {
@@ -958,7 +1454,7 @@ fn generate(rng: &mut Rng) -> Spec {
     let mut need = 0.0;
     let tmp = Spec {
         kind, rec: rec.clone(), sustain: None, cap: 1.0, bunit, query: Query::Absent, tmsu, grades: grades.clone(), ggu, sdu,
-        speeds: speeds.clone(), esu, edu, etu, ftu: etu, fdu: edu, flu: bunit, feu: bunit, edges: vec![], bcd: 0.0, od: ((0.0, 0.0), (0.0, 0.0)), state_features: false, soc_override: None,
+        speeds: speeds.clone(), esu, edu, etu, ftu: etu, fdu: edu, flu: bunit, feu: bunit, edges: vec![], bcd: 0.0, od: ((0.0, 0.0), (0.0, 0.0)), state_features: false, soc_override: None, cfg: None,
     };
     for (id, d) in &edges {
         if *id < n_ids && grades.as_ref().map(|g| *id < g.len()).unwrap_or(true) && speeds[*id] > 0.0 {
@@ -1004,11 +1500,11 @@ fn generate(rng: &mut Rng) -> Spec {
     } else {
         ((x0, y0), (x0 + rng.uniform(-0.2, 0.2) as f32, y0 + rng.uniform(-0.2, 0.2) as f32))
     };
-    Spec { kind, rec, sustain, cap, bunit, query: gen_query(rng), tmsu, grades, ggu, sdu, speeds, esu, edu, etu, ftu, fdu, flu, feu, edges, bcd, od, state_features, soc_override }
+    Spec { kind, rec, sustain, cap, bunit, query: gen_query(rng), tmsu, grades, ggu, sdu, speeds, esu, edu, etu, ftu, fdu, flu, feu, edges, bcd, od, state_features, soc_override, cfg: None }
 }
 
 fn plain_rec(ru: EnergyRateUnit, a0: f64, a1: f64, a2: f64, ideal: f64, cache: Option<(usize, Vec<i32>)>) -> RecSpec {
-    RecSpec { su: SpeedUnit::MilesPerHour, gu: GradeUnit::Decimal, ru, a0, a1, a2, ideal, adj: 1.0, cache }
+    RecSpec { su: SpeedUnit::MilesPerHour, gu: GradeUnit::Decimal, ru, a0, a1, a2, ideal, adj: 1.0, cache, file: None }
 }
 
 fn base_spec(kind: Kind, rec: RecSpec, sustain: Option<RecSpec>, cap: f64, bunit: EnergyUnit, query: Query) -> Spec {
@@ -1035,6 +1531,7 @@ fn base_spec(kind: Kind, rec: RecSpec, sustain: Option<RecSpec>, cap: f64, bunit
         od: ((-105.0, 39.7), (-104.9, 39.75)),
         state_features: false,
         soc_override: None,
+        cfg: None,
     }
 }
 
@@ -1085,9 +1582,253 @@ fn corpus() -> Vec<Spec> {
     v
 }
 
+// ---------------------------------------------------------------------------------------------
+// configured cases: model files, vehicle builders, EnergyModelBuilder, service.build(query)
+
+const MODEL_DIR: &str = "/repo/rust/routee-compass-powertrain/src/routee/test";
+const BUNDLED: [&str; 4] = [
+    "Toyota_Camry.bin",
+    "2017_CHEVROLET_Bolt.bin",
+    "2016_CHEVROLET_Volt_Charge_Depleting.bin",
+    "2016_CHEVROLET_Volt_Charge_Sustaining.bin",
+];
+
+/// a small random forest over (speed, grade) that goes negative on a steep downhill, written as a
+/// smartcore model file (the only kind of file the vehicle builders can load without the onnx feature)
+fn train_stub(seed: u64, k: usize, dir: &str) -> String {
+    use smartcore::ensemble::random_forest_regressor::{RandomForestRegressor, RandomForestRegressorParameters};
+    use smartcore::linalg::basic::matrix::DenseMatrix;
+    let mut rng = Rng::for_case(seed, 808, k as u64);
+    let n = 40 + rng.below(60);
+    // inputs in whatever units the record will declare: speeds up to 140, grades from -300 (millis) to 300
+    let gscale = *rng.pick(&[0.3, 30.0, 300.0]);
+    let (a0, a1, a2) = (rng.uniform(0.1, 0.4), rng.uniform(-0.0005, 0.003), rng.uniform(1.0, 4.0) / gscale);
+    let mut rows = vec![];
+    let mut ys = vec![];
+    for _ in 0..n {
+        let sv = rng.uniform(0.0, 140.0);
+        let gv = rng.uniform(-gscale, gscale);
+        rows.push(vec![sv, gv]);
+        ys.push(a0 + a1 * sv + a2 * gv);
+    }
+    let x = DenseMatrix::from_2d_vec(&rows);
+    let params = RandomForestRegressorParameters::default()
+        .with_n_trees(1 + k % 3)
+        .with_max_depth(8)
+        .with_min_samples_leaf(1)
+        .with_min_samples_split(2)
+        .with_m(2)
+        .with_seed(seed ^ (k as u64 + 1));
+    let rf: RandomForestRegressor<f64, f64, DenseMatrix<f64>, Vec<f64>> =
+        RandomForestRegressor::fit(&x, &ys, params).expect("stub forest trains");
+    std::fs::create_dir_all(dir).expect("stub dir");
+    let path = format!("{}/stub_{}_{}.bin", dir, std::process::id(), k);
+    std::fs::write(&path, bincode::serialize(&rf).expect("stub serialises")).expect("stub written");
+    path
+}
+
+/// the real model's answers on the sweep `find_min_energy_rate` performs (20..79 mph, zero grade)
+fn sweep_of(path: &str, su: SpeedUnit, gu: GradeUnit, ru: EnergyRateUnit, memo: &mut HashMap<String, Vec<f64>>) -> Vec<f64> {
+    let key = format!("{} {} {}", path, su, gu);
+    if let Some(v) = memo.get(&key) {
+        return v.clone();
+    }
+    use routee_compass_powertrain::routee::prediction::smartcore::smartcore_speed_grade_model::SmartcoreSpeedGradeModel;
+    let m = SmartcoreSpeedGradeModel::new(&path.to_string(), su, gu, ru).expect("model file loads");
+    let v: Vec<f64> = (20..80)
+        .map(|i| m.predict((Speed::new(i as f64), SpeedUnit::MilesPerHour), (Grade::new(0.0), GradeUnit::Percent)).expect("sweep").0.as_f64())
+        .collect();
+    memo.insert(key, v.clone());
+    v
+}
+
+fn gen_file_rec(rng: &mut Rng, electric: bool, models: &[String], memo: &mut HashMap<String, Vec<f64>>) -> RecSpec {
+    let ru = if rng.chance(1, 12) { *rng.pick(&ER) } else if electric { *rng.pick(&ER[2..5]) } else { *rng.pick(&ER[0..2]) };
+    let su = *rng.pick(&S);
+    let gu = *rng.pick(&G);
+    let path = rng.pick(models).clone();
+    let sweep = sweep_of(&path, su, gu, ru, memo);
+    let min = sweep.iter().cloned().fold(f64::MAX, |m, r| if r < m { r } else { m });
+    let ideal_cfg = if rng.chance(2, 3) { Some(min.abs().max(0.01) * rng.uniform(0.3, 1.0)) } else { None };
+    let adj_cfg = if rng.chance(2, 3) { Some(if rng.chance(1, 4) { 1.0 } else { rng.uniform(1.0, 1.5) }) } else { None };
+    let cache = if rng.chance(1, 2) { None } else { gen_cache(rng) };
+    RecSpec {
+        su,
+        gu,
+        ru,
+        // (only used to size the battery relative to the route)
+        a0: min.abs().max(0.01),
+        a1: 0.0,
+        a2: 0.0,
+        ideal: ideal_cfg.unwrap_or(min),
+        adj: adj_cfg.unwrap_or(1.0),
+        cache,
+        file: Some(FileRec { path, ideal_cfg, adj_cfg, table: vec![], sweep }),
+    }
+}
+
+fn gen_vehicle(rng: &mut Rng, models: &[String], memo: &mut HashMap<String, Vec<f64>>, route_miles: f64) -> VehSpec {
+    let kind = *rng.pick(&[Kind::Ice, Kind::Bev, Kind::Bev, Kind::Phev, Kind::Phev]);
+    let rec = gen_file_rec(rng, kind != Kind::Ice, models, memo);
+    let sustain = if kind == Kind::Phev { Some(gen_file_rec(rng, false, models, memo)) } else { None };
+    let bunit = if rng.chance(1, 8) { *rng.pick(&E) } else if kind == Kind::Ice { rec.ru.associated_energy_unit() } else { EnergyUnit::KilowattHours };
+    let need_b = conv_e(&rec.ru.associated_energy_unit(), &bunit, rec.a0 * route_miles * si_d(&DistanceUnit::Miles) / si_d(&rec.ru.associated_distance_unit())).abs().max(1e-6);
+    let cap = match rng.below(10) {
+        0 => 1.0e-6,
+        1 => 1.0e9,
+        2 => need_b * 0.01,
+        3 | 4 => need_b * rng.uniform(0.1, 0.9),
+        5 | 6 => need_b * rng.uniform(1.0, 3.0),
+        7 => *rng.pick(&[12.0, 60.0, 75.0, 100.0]),
+        _ => 10f64.powf(rng.uniform(-3.0, 6.0)),
+    };
+    VehSpec { kind, rec, sustain, cap, bunit }
+}
+
+fn generate_cfg(rng: &mut Rng, models: &[String], memo: &mut HashMap<String, Vec<f64>>) -> Spec {
+    let mut sp = generate(rng);
+    // the time model's `speed_unit` entry is both the engine's unit and the service's
+    sp.tmsu = sp.esu;
+    let route_miles: f64 = sp.edges.iter().map(|(_, d)| d / 1609.344).sum();
+    let n = 1 + rng.below(3);
+    let mut library: Vec<(usize, VehSpec)> = (0..n).map(|k| (k, gen_vehicle(rng, models, memo, route_miles))).collect();
+    if n >= 2 && rng.chance(1, 12) {
+        // two vehicles of the same name: the later one replaces the earlier one in the library
+        library[n - 1].0 = library[0].0;
+    }
+    let name = match rng.below(30) {
+        0 => NameQuery::Absent,
+        1 => NameQuery::NonString,
+        2 | 3 => NameQuery::Name(n + rng.below(3)),
+        _ => NameQuery::Name(library[rng.below(n)].0),
+    };
+    // the vehicle in force: the last one of that name
+    let chosen = match &name {
+        NameQuery::Name(k) => library.iter().rev().find(|(id, _)| id == k).map(|(_, v)| v.clone()),
+        _ => None,
+    }
+    .unwrap_or_else(|| library[0].1.clone());
+    sp.kind = chosen.kind;
+    sp.rec = chosen.rec;
+    sp.sustain = chosen.sustain;
+    sp.cap = chosen.cap;
+    sp.bunit = chosen.bunit;
+    // defaults in force when the configuration leaves a unit out
+    let omit_edu = rng.chance(1, 3);
+    let omit_etu = rng.chance(1, 3);
+    let omit_sdu = rng.chance(1, 3);
+    if omit_edu {
+        sp.edu = DistanceUnit::Meters;
+    }
+    if omit_etu {
+        sp.etu = TimeUnit::Seconds;
+    }
+    if omit_sdu {
+        sp.sdu = DistanceUnit::Meters;
+    }
+    if !sp.state_features {
+        sp.ftu = sp.etu;
+        sp.fdu = sp.edu;
+        sp.flu = match sp.kind {
+            Kind::Phev => sp.sustain.as_ref().unwrap().ru.associated_energy_unit(),
+            _ => sp.rec.ru.associated_energy_unit(),
+        };
+        sp.feu = sp.bunit;
+    }
+    if sp.kind == Kind::Ice {
+        sp.soc_override = None;
+    }
+    sp.cfg = Some(CfgSpec { library, name, omit_edu, omit_etu, omit_sdu, bad_coord: rng.chance(1, 20), malformed: if rng.chance(1, 14) { Some(rng.below(14)) } else { None } });
+    sp
+}
+
+fn dedup_table(log: &[(f64, f64, f64)]) -> Vec<(f64, f64, f64)> {
+    let mut out: Vec<(f64, f64, f64)> = vec![];
+    for (s, g, r) in log {
+        if !out.iter().any(|(a, b, _)| a.to_bits() == s.to_bits() && b.to_bits() == g.to_bits()) {
+            out.push((*s, *g, *r));
+        }
+    }
+    out
+}
+
+/// the outcome line without what only the in-process construction can report
+fn strip_direct(line: &str) -> String {
+    line.split(" | ").filter(|p| !p.starts_with("bc ") && !p.starts_with("bcs ")).collect::<Vec<_>>().join(" | ")
+}
+
+fn run_headings(ctx: &mut Ctx, n: usize) {
+    use routee_compass_core::model::access::default::turn_delays::edge_heading::EdgeHeading;
+    use routee_compass_core::model::network::edge_id::EdgeId;
+    use routee_compass_powertrain::routee::energy_model_ops::get_headings;
+    for k in 0..n {
+        let Some(idx) = ctx.begin() else { continue };
+        let mut rng = Rng::for_case(ctx.seed, 8008, k as u64);
+        let len = rng.below(6);
+        let rows: Vec<(i16, i16)> = (0..len).map(|_| (rng.range(0, 359) as i16, rng.range(0, 359) as i16)).collect();
+        let id = rng.below(len + 2);
+        let table: Vec<EdgeHeading> = rows.iter().map(|(a, d)| EdgeHeading::new(*a, *d)).collect();
+        let mut line = format!("hd {}", rows.len());
+        for (a, d) in &rows {
+            line.push_str(&format!(" {} {}", a, d));
+        }
+        line.push_str(&format!(" {}", id));
+        let out = match get_headings(&table, EdgeId(id)) {
+            Ok(h) => {
+                if id >= rows.len() || (h.start_heading(), h.end_heading()) != rows[id] {
+                    ctx.fail(idx, "get_headings/row", format!("row {} of {:?} gave ({}, {})", id, rows, h.start_heading(), h.end_heading()));
+                }
+                format!("ok {} {}", h.start_heading(), h.end_heading())
+            }
+            Err(_) => {
+                if id < rows.len() {
+                    ctx.fail(idx, "get_headings/row", format!("row {} of {:?} was not found", id, rows));
+                }
+                "err failure".to_string()
+            }
+        };
+        ctx.emit(idx, line, out);
+        ctx.count("get_headings");
+    }
+}
+
+fn count_outcome(ctx: &mut Ctx, sp: &Spec, oc: &Outcome, line: &str) {
+    ctx.count(match sp.kind { Kind::Ice => "vehicle_ice", Kind::Bev => "vehicle_bev", Kind::Phev => "vehicle_phev" });
+    if oc.engine_rejected {
+        ctx.count("engine_rejected");
+    } else if oc.rejected {
+        ctx.count("query_rejected");
+    } else {
+        let okn = oc.steps.iter().filter(|s| matches!(s, Step::Ok(..))).count();
+        ctx.count_n("edges_traversed", okn as u64);
+        if sp.rec.cache.is_some() { ctx.count("with_cache"); } else { ctx.count("without_cache"); }
+        for s in oc.steps.iter() {
+            match s {
+                Step::Ok(o, cm, cs, _, _) => {
+                    if sp.kind != Kind::Ice {
+                        if o.soc == 0.0 { ctx.count("soc_clamped_at_0"); }
+                        else if o.soc == 100.0 { ctx.count("soc_at_100"); }
+                        else { ctx.count("soc_unclamped"); }
+                    }
+                    if sp.cfg.is_none() {
+                        if !cm && !cs { ctx.count("cache_hit"); }
+                        if *cs { ctx.count("phev_liquid_edge"); }
+                    }
+                }
+                Step::Err(k) => ctx.count(&format!("edge_error_{}", k)),
+            }
+        }
+        if sp.ftu != sp.etu || sp.fdu != sp.edu { ctx.count("feature_unit_overridden"); }
+        if sp.soc_override.is_some() { ctx.count("soc_set_through_state_features"); }
+        if format!("{}", sp.tmsu) != format!("{}", sp.esu) { ctx.count("time_model_speed_unit_differs"); }
+        if okn >= 2 { ctx.nontrivial(line); }
+    }
+}
+
 pub fn run(ctx: &mut Ctx) -> &'static str {
     let mut specs = corpus();
     let n = ctx.n(6000, 150000);
+    let n_cfg = ctx.n(900, 12000);
     let n_corpus = specs.len();
     for k in 0..n {
         // the generator is a pure function of (seed, case index)
@@ -1097,7 +1838,7 @@ pub fn run(ctx: &mut Ctx) -> &'static str {
     for sp in specs.iter() {
         let Some(idx) = ctx.begin() else { continue };
         let line = case_line(sp);
-        let r = std::panic::catch_unwind(std::panic::AssertUnwindSafe(|| execute(sp)));
+        let r = std::panic::catch_unwind(std::panic::AssertUnwindSafe(|| execute(sp, &Probes::new())));
         match r {
             Err(_) => {
                 ctx.emit(idx, line, "panic".to_string());
@@ -1106,37 +1847,74 @@ pub fn run(ctx: &mut Ctx) -> &'static str {
             }
             Ok((out, oc)) => {
                 ctx.emit(idx, line.clone(), out);
-                ctx.count(match sp.kind { Kind::Ice => "vehicle_ice", Kind::Bev => "vehicle_bev", Kind::Phev => "vehicle_phev" });
-                if oc.engine_rejected {
-                    ctx.count("engine_rejected");
-                } else if oc.rejected {
-                    ctx.count("query_rejected");
-                } else {
-                    let okn = oc.steps.iter().filter(|s| matches!(s, Step::Ok(..))).count();
-                    ctx.count_n("edges_traversed", okn as u64);
-                    if sp.rec.cache.is_some() { ctx.count("with_cache"); } else { ctx.count("without_cache"); }
-                    for s in oc.steps.iter() {
-                        match s {
-                            Step::Ok(o, cm, cs, _) => {
-                                if sp.kind != Kind::Ice {
-                                    if o.soc == 0.0 { ctx.count("soc_clamped_at_0"); }
-                                    else if o.soc == 100.0 { ctx.count("soc_at_100"); }
-                                    else { ctx.count("soc_unclamped"); }
-                                }
-                                if !cm && !cs { ctx.count("cache_hit"); }
-                                if *cs { ctx.count("phev_liquid_edge"); }
-                            }
-                            Step::Err(k) => ctx.count(&format!("edge_error_{}", k)),
-                        }
-                    }
-                    if sp.ftu != sp.etu || sp.fdu != sp.edu { ctx.count("feature_unit_overridden"); }
-                    if sp.soc_override.is_some() { ctx.count("soc_set_through_state_features"); }
-                    if format!("{}", sp.tmsu) != format!("{}", sp.esu) { ctx.count("time_model_speed_unit_differs"); }
-                    if okn >= 2 { ctx.nontrivial(&line); }
-                }
-                oracle(ctx, idx, sp, &oc);
+                count_outcome(ctx, sp, &oc, &line);
+                oracle(ctx, idx, sp, &oc, None);
             }
         }
     }
-    "real EnergyTraversalModel (via ::new and the real update_from_query; traverse_edge and estimate_traversal) over the real speed-table time model, real ICE/BEV/PHEV and PredictionModelRecord (with/without the real FloatCachePolicy) around an affine stub predictor, state model through the real collect_features/extend; 1-60 edges, every unit of every configurable quantity (prediction model speed/grade/rate units, time model speed/distance/time units, service speed/grade/distance units, battery unit, state feature units via the query's state_features), capacities 1e-6..1e9 and relative to the route's need, starting charge inside/at/outside [0,100], absent, non-numeric and set through state_features, steep downhill, long uphill, missing table rows, non-positive speeds, zero-length edges; non-trivial = accepted query with at least two traversed edges; distinct by full case text"
+    // --- configured cases
+    let dir = "work/C08_cfg";
+    let mut models: Vec<String> = (0..6).map(|k| train_stub(ctx.seed, k, dir)).collect();
+    let n_stub = models.len();
+    let mut memo: HashMap<String, Vec<f64>> = HashMap::new();
+    for k in 0..n_cfg {
+        let Some(idx) = ctx.begin() else { continue };
+        let mut rng = Rng::for_case(ctx.seed, 88, k as u64);
+        // mostly the small trained forests (fast to load), sometimes the bundled vehicle models
+        let pool: Vec<String> = if rng.chance(1, 8) { BUNDLED.iter().map(|m| format!("{}/{}", MODEL_DIR, m)).collect() } else { models[..n_stub].to_vec() };
+        let sp0 = generate_cfg(&mut rng, &pool, &mut memo);
+        let cfg = sp0.cfg.clone().unwrap();
+        let r = std::panic::catch_unwind(std::panic::AssertUnwindSafe(|| {
+            // the twin: the same case constructed in-process around the same model files, recording
+            let pr = Probes::new();
+            let (twin_out, twin) = execute(&sp0, &pr);
+            let mut sp = sp0.clone();
+            if let Some(f) = sp.rec.file.as_mut() {
+                f.table = dedup_table(&pr.log_main.lock().unwrap());
+            }
+            if let Some(f) = sp.sustain.as_mut().and_then(|r| r.file.as_mut()) {
+                f.table = dedup_table(&pr.log_sus.lock().unwrap());
+            }
+            let (out, oc) = execute_cfg(&sp, &cfg, idx);
+            (sp, out, oc, twin_out, twin)
+        }));
+        match r {
+            Err(_) => {
+                ctx.emit(idx, case_line(&sp0), "panic".to_string());
+                ctx.fail(idx, "builder/panic", "the implementation panicked".to_string());
+                ctx.count("panic");
+            }
+            Ok((sp, out, oc, twin_out, twin)) => {
+                let line = case_line(&sp);
+                ctx.emit(idx, line.clone(), out.clone());
+                ctx.count("configured_case");
+                ctx.count(match &cfg.name {
+                    NameQuery::Absent => "cfg_model_name_absent",
+                    NameQuery::NonString => "cfg_model_name_not_a_string",
+                    NameQuery::Name(k) if cfg.library.iter().any(|(id, _)| id == k) => "cfg_model_name_known",
+                    NameQuery::Name(_) => "cfg_model_name_unknown",
+                });
+                ctx.count_n("cfg_vehicles_built", cfg.library.len() as u64);
+                if sp.rec.file.as_ref().map(|f| f.path.starts_with(MODEL_DIR)).unwrap_or(false) { ctx.count("cfg_bundled_model"); }
+                if sp.rec.file.as_ref().map(|f| f.ideal_cfg.is_none()).unwrap_or(false) { ctx.count("cfg_ideal_rate_swept"); }
+                if sp.rec.file.as_ref().map(|f| f.adj_cfg.is_none()).unwrap_or(false) { ctx.count("cfg_adjustment_defaulted"); }
+                if cfg.omit_edu || cfg.omit_etu || cfg.omit_sdu { ctx.count("cfg_unit_defaulted"); }
+                if cfg.bad_coord { ctx.count("cfg_haversine_error"); }
+                if let Some(k) = cfg.malformed { ctx.count(&format!("cfg_malformed_{:02}", k)); }
+                count_outcome(ctx, &sp, &oc, &line);
+                oracle(ctx, idx, &sp, &oc, Some(&twin));
+                // the two constructions of the real code must agree (the speed file reader alone rejects
+                // a negative speed, the in-process engine is a struct literal)
+                let valid_name = matches!(&cfg.name, NameQuery::Name(k) if cfg.library.iter().any(|(id, _)| id == k));
+                if valid_name && cfg.malformed.is_none() && !sp.speeds.iter().any(|x| *x < 0.0) && strip_direct(&twin_out) != out.splitn(2, " | ").nth(1).unwrap_or("") {
+                    ctx.fail(idx, "builder/in-process-twin", format!("the model built from configuration gives `{}` where the same vehicle constructed in-process gives `{}`", out.chars().take(300).collect::<String>(), strip_direct(&twin_out).chars().take(300).collect::<String>()));
+                }
+            }
+        }
+    }
+    for m in models.drain(..) {
+        let _ = std::fs::remove_file(m);
+    }
+    run_headings(ctx, 60);
+    "real EnergyTraversalModel (via ::new and the real update_from_query; traverse_edge and estimate_traversal) over the real speed-table time model, real ICE/BEV/PHEV and PredictionModelRecord (with/without the real FloatCachePolicy) around an affine stub predictor, state model through the real collect_features/extend; plus configured cases built the way the application builds them: EnergyModelBuilder::build over a speed-table file, a grade file and VehicleBuilder (ice/bev/phev) over smartcore model files (small trained forests and the bundled vehicle models; the model's answers reach the Lean side as data), 1-3 vehicles per library, service.build(query) selecting by model_name (known, unknown, absent, not a string), ideal rate configured or swept, adjustment configured or defaulted, units configured or defaulted, cache configured or not; 1-60 edges, every unit of every configurable quantity (prediction model speed/grade/rate units, time model speed/distance/time units, service speed/grade/distance units, battery unit, state feature units via the query's state_features), capacities 1e-6..1e9 and relative to the route's need, starting charge inside/at/outside [0,100], absent, non-numeric and set through state_features, steep downhill, long uphill, missing table rows, non-positive speeds, zero-length edges, coordinates the haversine code rejects; get_headings rows; non-trivial = accepted query with at least two traversed edges; distinct by full case text"
 }
